@@ -24,6 +24,7 @@ import (
 type credSpecCase struct {
 	Cred    map[string][]string `json:"cred"`
 	Protect bool                `json:"protect"`
+	Prior   bool                `json:"prior"`
 	Op      string              `json:"op"`
 	Refuse  bool                `json:"refuse"`
 }
@@ -125,7 +126,7 @@ func init() {
 				for k, v := range jobs[i].spec.Cred {
 					fields[k] = base64.StdEncoding.EncodeToString([]byte(render(v)))
 				}
-				enc.Encode(map[string]interface{}{"id": i, "protect": jobs[i].spec.Protect, "op": jobs[i].spec.Op, "fields": fields, "via_url": jobs[i].viaURL})
+				enc.Encode(map[string]interface{}{"id": i, "protect": jobs[i].spec.Protect, "prior": jobs[i].spec.Prior, "op": jobs[i].spec.Op, "fields": fields, "via_url": jobs[i].viaURL})
 			}
 			w.Flush()
 			f.Close()
@@ -213,7 +214,7 @@ func init() {
 		c.Set("passed_verbatim", passedOK)
 		c.Set("rejected_by_url_parser", urlRejected)
 		c.Set("exhaustive", true)
-		c.Set("rule", "cases = every credential map of spec/CredProto.tla with <= MaxHot fields carrying a non-plain value of length <= MaxLen over {x,=,LF,CR,NUL,space}, x protectProtocol x {fill,approve,reject}; username/path cases are also run through url.Parse of a percent-encoded URL; distinct = distinct spec states")
+		c.Set("rule", "cases = every credential map of spec/CredProto.tla with <= MaxHot fields carrying a non-plain value of length <= MaxLen over {x,=,LF,CR,NUL,space}, x protectProtocol x {fresh context, context that first served another URL whose own setting switches protection off} x {fill,approve,reject}; username/path cases are also run through url.Parse of a percent-encoded URL; distinct = distinct spec states")
 		for i := 0; i < len(jobs); i += len(jobs)/5 + 1 {
 			f := map[string]string{}
 			for k, v := range jobs[i].spec.Cred {
